@@ -28,10 +28,10 @@ type Scenario struct {
 	Pre          []harness.BatchSpec   // applied by the main thread before the clients start
 	Clients      [][]harness.BatchSpec // concurrent clients, each sequential
 	Opts         harness.Opts
-	Callbacks    bool                  // unsafe mode: acknowledgement = persisted-callback(nil)
-	Continuation []harness.BatchSpec   // applied (safe mode) after recovering an image (depth 2)
-	Settle       bool                  // unsafe mode: wait until every callback fired before closing
-	ClientsFirst bool                  // create the client threads before the writer's threads (they get the
+	Callbacks    bool                // unsafe mode: acknowledgement = persisted-callback(nil)
+	Continuation []harness.BatchSpec // applied (safe mode) after recovering an image (depth 2)
+	Settle       bool                // unsafe mode: wait until every callback fired before closing
+	ClientsFirst bool                // create the client threads before the writer's threads (they get the
 	// lower thread ids, so the default scheduler prefers clients over background work)
 }
 
@@ -47,6 +47,7 @@ type Mode struct {
 	AllSegPrefixes bool
 	Conformance    bool // replay every distinct trace on the real directory
 	WriterOpen     bool // C03: additionally open a WRITER on every image (crashfs copy) and compare
+	FilesOnly      bool // C11 under faults: judge only the retention / handle / lock invariants of the trace
 	CumulativeAck  bool // C14: an acknowledgement covers every batch applied before it (single client)
 }
 
@@ -224,10 +225,16 @@ func Run(name string, sc Scenario, mode Mode, opts verifmc.Options, faults func(
 		return s, res
 	}
 	m := mode
-	if m.Depth >= 2 && !m.Depth2AllSched && len(opts.Prefix) > 0 {
+	isDefault := true // the default schedule: no deviation in the replayed prefix
+	for _, c := range opts.Prefix {
+		if c != 0 {
+			isDefault = false
+		}
+	}
+	if m.Depth >= 2 && !m.Depth2AllSched && !isDefault {
 		m.Depth = 1
 	}
-	if len(opts.Prefix) == 0 {
+	if isDefault {
 		m.NoMMapToo = true // the default schedule's trace: every image with both loaders
 	}
 	fail, key := Judge(name, sc, m, dir.Trace, recs, res)
@@ -403,8 +410,90 @@ func judgeImage(name string, sc Scenario, mode Mode, img *crashfs.Image, acc []a
 		if f != "" {
 			return "depth 2: " + f, "depth2"
 		}
+		rk := fmt.Sprintf("r|%x", img.Hash[:16])
+		f, ok = depth2Cache[rk]
+		if !ok {
+			f = secondLifeOnRealDir(sc, img, content)
+			depth2Cache[rk] = f
+			res.Counts["second_lives_on_the_real_directory"]++
+		}
+		if f != "" {
+			return "second life on the real directory: " + f, "second-life-real"
+		}
 	}
 	return "", ""
+}
+
+// secondLifeOnRealDir materialises the image, opens a writer on it through
+// the REAL FileSystemDirectory, applies one delete-only batch that removes
+// every recovered document (no new segment: a single, shortest-possible
+// snapshot, written under the epoch that follows the recovered one — the
+// epoch of a torn snapshot file if the image holds one), closes, and reopens.
+func secondLifeOnRealDir(sc Scenario, img *crashfs.Image, recovered string) string {
+	dirPath, err := recovery.Materialise(img.Files, "life2")
+	if err != nil {
+		return "harness: " + err.Error()
+	}
+	defer os.RemoveAll(dirPath)
+	m := harness.ModelFromContent(recovered)
+	var del harness.BatchSpec
+	var ids []string
+	for id := range m.Docs {
+		ids = append(ids, id)
+	}
+	sort.Strings(ids)
+	for _, id := range ids {
+		del = append(del, harness.Op{Kind: 'D', ID: id})
+	}
+	var fail string
+	s := verifmc.Run(verifmc.Options{MaxSteps: 200000}, func() {
+		w, err := bluge.OpenWriter(harness.Config(index.NewFileSystemDirectory(dirPath), harness.Opts{Retain: sc.Opts.Retain}))
+		if err != nil {
+			if img.SnapshotDone {
+				fail = "a writer cannot be opened on the recovered directory: " + err.Error()
+			}
+			verifmc.Exit()
+		}
+		if len(del) > 0 {
+			if err := w.Batch(harness.MakeBatch(del)); err != nil {
+				fail = "the recovered writer refused a delete-only batch: " + err.Error()
+			}
+		}
+		if err := w.Close(); err != nil && fail == "" {
+			fail = "close: " + err.Error()
+		}
+	})
+	if fail != "" {
+		return fail
+	}
+	if s.Failure != "" {
+		return s.Failure
+	}
+	if !img.SnapshotDone {
+		return ""
+	}
+	files := map[string][]byte{}
+	ents, _ := os.ReadDir(dirPath)
+	for _, e := range ents {
+		if e.Name() == "bluge.pid" {
+			continue
+		}
+		b, err := os.ReadFile(filepath.Join(dirPath, e.Name()))
+		if err == nil {
+			files[e.Name()] = b
+		}
+	}
+	o := recovery.OpenFS(files, false)
+	if o.Panic != "" {
+		return "reopening after the second life panicked/faulted: " + o.Panic
+	}
+	if !o.Opened {
+		return fmt.Sprintf("after recover / delete everything / close the directory [%s] no longer opens: %s", fileList(files), o.Err)
+	}
+	if o.Content != "" {
+		return fmt.Sprintf("after recover / delete everything / close the directory shows {%s}, expected the empty index", o.Content)
+	}
+	return ""
 }
 
 // continueAndCrash opens a writer on the recovered image, applies the
@@ -550,6 +639,69 @@ func openWriterOn(sc Scenario, img *crashfs.Image, recovered string) string {
 	o := recovery.OpenFS(dir.Files, true)
 	if !o.Opened || o.Content != recovered {
 		return fmt.Sprintf("after a writer was opened and closed on the image, the directory recovers as {%s} (opened=%v %s%s), expected {%s}", o.Content, o.Opened, o.Err, o.Panic, recovered)
+	}
+	return ""
+}
+
+// RetentionInvariant walks the trace and checks, at every operation boundary
+// once n snapshots have been committed, that at least n snapshot files are
+// loadable (decodable, every segment file they name present).
+func RetentionInvariant(trace []crashfs.Event, n int) string {
+	files := map[string][]byte{}
+	commits := 0
+	check := func(i int, e crashfs.Event) string {
+		if commits < n {
+			return ""
+		}
+		loadable := 0
+		var why []string
+		for name, b := range files {
+			if !strings.HasSuffix(name, ".snp") || len(b) < 4 {
+				continue
+			}
+			segs, _, err := index.VerifDecodeSnapshot(b[:len(b)-4])
+			if err != nil {
+				why = append(why, name+": "+err.Error())
+				continue
+			}
+			ok := true
+			for _, sg := range segs {
+				if _, have := files[crashfs.FileName(index.ItemKindSegment, sg.ID)]; !have {
+					ok = false
+					why = append(why, fmt.Sprintf("%s needs missing segment %x", name, sg.ID))
+				}
+			}
+			if ok {
+				loadable++
+			}
+		}
+		if loadable < n {
+			sort.Strings(why)
+			return fmt.Sprintf("after storage event %d (%s %s): only %d snapshot(s) loadable with all their segment files, retention is %d (%s)", i, e.Kind, e.Name, loadable, n, strings.Join(why, "; "))
+		}
+		return ""
+	}
+	for i, e := range trace {
+		switch e.Kind {
+		case "persist":
+			if e.Err == "" {
+				files[e.Name] = e.Data
+				if strings.HasSuffix(e.Name, ".snp") {
+					commits++
+				}
+			} else if e.Err != "locked" {
+				delete(files, e.Name)
+			}
+		case "remove":
+			if e.Err == "" {
+				delete(files, e.Name)
+			}
+		default:
+			continue
+		}
+		if f := check(i, e); f != "" {
+			return f
+		}
 	}
 	return ""
 }
